@@ -437,7 +437,21 @@ func (x *Exec) callPackage(s *State, in *ssa.Call, callee *ssa.Function, args []
 			fn := "pure!" + sanitize(name)
 			x.declFun(s, fn, sig+") "+string(rs))
 			x.assumed["pure function (deterministic, no side effects): "+name] = true
-			fr.env[in] = scalar(mk(rs, fn, ts...))
+			rv := scalar(mk(rs, fn, ts...))
+			fr.env[in] = rv
+			// what the function promises about its result (proved where it is verified)
+			penv := &specEnv{x: x, s: s, where: "contract " + fc.Key, vars: map[string]sval{}}
+			for i, p := range callee.Params {
+				if p.Name() != "" && p.Name() != "_" {
+					penv.vars[p.Name()] = sval{v: args[i], typ: p.Type()}
+				}
+			}
+			penv.vars["result"] = sval{v: rv, typ: callee.Signature.Results().At(0).Type()}
+			for _, cl := range fc.clauses("ensures") {
+				if t, err := penv.evalBool(cl.Expr); err == nil {
+					s.assume(t)
+				}
+			}
 			return false
 		}
 	}
